@@ -886,6 +886,40 @@ func naturalLoops(f *ssa.Function) []*natLoop {
 }
 
 // innermostLoop: the smallest natural loop that contains b (nil if none).
+// rotatedLatches: the latch blocks of a rotated loop (for i := range n, as go/ssa
+// builds it): an in-loop block that either returns to the header or leaves to
+// the very block the guard in front of the loop leaves to.  Arriving there is
+// "going on with the next element"; its exit is the normal end of the loop.
+func rotatedLatches(l *natLoop) map[*ssa.BasicBlock]bool {
+	out := map[*ssa.BasicBlock]bool{}
+	var guardExits []*ssa.BasicBlock
+	for _, p := range l.Header.Preds {
+		if !l.Blocks[p] {
+			for _, s := range p.Succs {
+				if s != l.Header {
+					guardExits = append(guardExits, s)
+				}
+			}
+		}
+	}
+	for b := range l.Blocks {
+		if len(b.Succs) != 2 {
+			continue
+		}
+		for i, s := range b.Succs {
+			other := b.Succs[1-i]
+			if s == l.Header && !l.Blocks[other] {
+				for _, g := range guardExits {
+					if g == other {
+						out[b] = true
+					}
+				}
+			}
+		}
+	}
+	return out
+}
+
 func innermostLoop(loops []*natLoop, b *ssa.BasicBlock) *natLoop {
 	var best *natLoop
 	for _, l := range loops {
